@@ -129,6 +129,7 @@ type Guard struct {
 	Min     int    // minimum number of distinct sites (anchor must exist)
 	Max     int    // maximum number of distinct sites (0 = unlimited)
 	None    bool   // expected-zero rule: every matching site is a violation
+	Assume  string // invariant of stored records taken for granted (case split over its DNF); recorded in the evidence
 	Why     string
 	Rule    string
 }
@@ -261,6 +262,27 @@ func (c *Ctx) Guard(g Guard) *OblResult {
 		fail(&Violation{Key: g.ID, Msg: "clause uses an undefined alias: " + FString2(clause), Undecided: true})
 		return res
 	}
+	var assume [][]Lit
+	if g.Assume != "" {
+		af, err := ParseClause(g.Assume, c.Al, c.P)
+		if err != nil {
+			fail(&Violation{Key: g.ID, Msg: "bad assumption: " + err.Error(), Undecided: true})
+			return res
+		}
+		assume, _ = DNF(af, false)
+		res.Clause += "   [assuming " + g.Assume + "]"
+	}
+	feasible := func(conds []Lit) bool {
+		if assume == nil {
+			return true
+		}
+		for _, d := range assume {
+			if !Unsat(append(append([]Lit(nil), conds...), d...), c.P.Domain) {
+				return true
+			}
+		}
+		return false
+	}
 	sites := FindSites(paths, c.Match(g.Sel))
 	res.Sites = len(sites)
 	if g.None {
@@ -269,6 +291,18 @@ func (c *Ctx) Guard(g Guard) *OblResult {
 		var ky keyer
 		for _, s := range sites {
 			ref := s.Refs[0]
+			if assume != nil {
+				any := false
+				for _, r := range s.Refs {
+					if feasible(CondsBefore(r.Path, r.Idx)) {
+						any, ref = true, r
+						break
+					}
+				}
+				if !any {
+					continue
+				}
+			}
 			e := s.Ev()
 			fail(&Violation{Key: ky.key(ref.Path, ref.Idx, c.Al), Pos: c.P.Pos(e.Pos), Func: FuncChain(ref.Path, ref.Idx),
 				Msg: c.Render(c.A.DescribeEvent(e)) + " must not occur: " + g.Why, Path: c.PathTrace(ref.Path, ref.Idx)})
@@ -299,7 +333,16 @@ func (c *Ctx) Guard(g Guard) *OblResult {
 			res.Evaluations++
 			conds := CondsBefore(ref.Path, ref.Idx)
 			f := ResolvePseudos(clause, EventsBefore(ref.Path, ref.Idx), conds)
-			ent := Entails(conds, f, c.P.Domain)
+			ent := true
+			if assume == nil {
+				ent = Entails(conds, f, c.P.Domain)
+			} else {
+				for _, d := range assume {
+					if !Entails(append(append([]Lit(nil), conds...), d...), f, c.P.Domain) {
+						ent = false
+					}
+				}
+			}
 			if g.Forbid != "" {
 				if ent {
 					okAll = false
